@@ -27,6 +27,7 @@ def checkSpans (o : C34.Obs) : List String → Option String
       let cls := if kind == "object" then "D_object_member_effect"
                  else if kind == "call" then "D_call_argument_effect"
                  else if kind == "operand" then "D_operand_of_unused_op"
+                 else if kind == "after_closure" then "D_element_after_closure_call"
                  else "-"
       pure ("fails removable:" ++ cls)
   | _ => none
